@@ -1,68 +1,16 @@
 import WfModel.Replay
+import WfProofs.EngineErase
 /-!
-Time erasure for the reducer.  Replay (`replay_ticks_stream`) runs `_reduce_tick` at the clock of
-the restart, not at the clock at which the tick was processed.  The only place the reducer's clock
-enters the state is `first_attempt_at` of an in-progress invocation (`first_attempt_at or now`),
-and the only place that value is read back is the `elapsed_time` handed to the retry policy (and
-time fields of commands, which replay drops).  Hence: for retry policies that do not look at the
-elapsed time, two states that agree up to the `first_attempt_at` of their in-progress invocations
-are mapped, by the same tick at two different clocks, to two states that agree in the same sense,
-and the two command lists agree on their exit / crash commands.
+Time erasure for the reducer, in the form the replay proofs (C11, C13) use it.  The simulation
+itself (`SimSS`, `SimSt`, `reduce_sim`: one tick at two clocks keeps agreement up to
+`first_attempt_at`, commands agree up to time-derived payloads) is shared with C14 and lives in
+`WfProofs/EngineErase.lean`.  Here: replay and the runner's control flow only look at exit commands
+and `crash` (`keyCmds`), and those agree.
 -/
 set_option linter.unusedVariables false
 set_option linter.unusedSimpArgs false
 
 namespace Engine
-
-/-- the policy's decision does not depend on the elapsed time (attempt-count based policies) -/
-def TimeFree (pol : Policy) : Prop := ∀ s e e' f x, pol s e f x = pol s e' f x
-
-def eraseIP (ip : InProg) : InProg := { ip with firstAt := 0 }
-
-/-- agreement of two step states up to `first_attempt_at` of in-progress invocations -/
-structure SimSS (a b : StepState) : Prop where
-  queue : a.queue = b.queue
-  collected : a.collected = b.collected
-  waiters : a.waiters = b.waiters
-  inProg : a.inProg.map eraseIP = b.inProg.map eraseIP
-
-structure SimSt (a b : State) : Prop where
-  running : a.isRunning = b.isRunning
-  workers : ∀ n, SimSS (a.workers n) (b.workers n)
-
-theorem SimSS.refl (a : StepState) : SimSS a a := ⟨rfl, rfl, rfl, rfl⟩
-theorem SimSt.refl (a : State) : SimSt a a := ⟨rfl, fun _ => SimSS.refl _⟩
-theorem SimSS.symm {a b : StepState} (h : SimSS a b) : SimSS b a :=
-  ⟨h.queue.symm, h.collected.symm, h.waiters.symm, h.inProg.symm⟩
-theorem SimSt.symm {a b : State} (h : SimSt a b) : SimSt b a :=
-  ⟨h.running.symm, fun n => (h.workers n).symm⟩
-theorem SimSS.trans {a b c : StepState} (h : SimSS a b) (g : SimSS b c) : SimSS a c :=
-  ⟨h.queue.trans g.queue, h.collected.trans g.collected, h.waiters.trans g.waiters, h.inProg.trans g.inProg⟩
-theorem SimSt.trans {a b c : State} (h : SimSt a b) (g : SimSt b c) : SimSt a c :=
-  ⟨h.running.trans g.running, fun n => (h.workers n).trans (g.workers n)⟩
-
-theorem SimSS.length {a b : StepState} (h : SimSS a b) : a.inProg.length = b.inProg.length := by
-  have := congrArg List.length h.inProg
-  simpa using this
-
-theorem SimSS.wids {a b : StepState} (h : SimSS a b) : usedIds a = usedIds b := by
-  have := congrArg (List.map (·.wid)) h.inProg
-  simpa [usedIds, List.map_map, Function.comp_def, eraseIP] using this
-
-theorem SimSS.freeIds {a b : StepState} (h : SimSS a b) (nw : Nat) : freeIds a nw = freeIds b nw := by
-  simp [Engine.freeIds, h.wids]
-
-theorem SimSS.isEmpty {a b : StepState} (h : SimSS a b) : a.inProg.isEmpty = b.inProg.isEmpty := by
-  have := h.length
-  cases ha : a.inProg <;> cases hb : b.inProg <;> simp_all
-
-theorem SimSt.set {a b : State} (h : SimSt a b) (s : Nat) {x y : StepState} (hx : SimSS x y) :
-    SimSt (a.set s x) (b.set s y) := by
-  refine ⟨h.running, fun n => ?_⟩
-  simp only [State.set]
-  split
-  · exact hx
-  · exact h.workers n
 
 /-- the commands replay (and the runner's control flow) looks at: exit commands and `crash` -/
 def keyCmds (l : List Cmd) : List Cmd := l.filter (fun c => c.isExit || c == .crash)
@@ -117,409 +65,24 @@ theorem lastExit_key (prev : Option Cmd) (l : List Cmd) : lastExit prev l = last
       · simp only [h', hc, Bool.false_or, Bool.false_eq_true, if_false]
         exact ih _
 
-/-! ### `_add_or_enqueue_event`, the queue drain -/
+/-- `keyCmds` does not see what `cE` erases -/
+theorem keyCmds_cE (l : List Cmd) : keyCmds (l.map cE) = keyCmds l := by
+  unfold keyCmds
+  rw [List.filter_map]
+  have hp : ((fun c : Cmd => c.isExit || c == Cmd.crash) ∘ cE) = (fun c : Cmd => c.isExit || c == Cmd.crash) := by
+    funext c; simp only [Function.comp, cE_isExit, cE_crash]
+  rw [hp]
+  apply map_eq_self
+  intro c hc
+  have := (List.mem_filter.mp hc).2
+  cases c <;> first | rfl | simp [Cmd.isExit] at this
 
-theorem addOrEnqueue_sim (att : Attempt) (step : Nat) {a b : StepState} (nw : Nat) (n n' : Int)
-    (h : SimSS a b) :
-    SimSS (addOrEnqueue att step a nw n).1 (addOrEnqueue att step b nw n').1 ∧
-      (addOrEnqueue att step a nw n).2 = (addOrEnqueue att step b nw n').2 := by
-  unfold addOrEnqueue
-  rw [h.length, h.freeIds nw]
-  split
-  · cases hf : freeIds b nw with
-    | nil => exact ⟨h, rfl⟩
-    | cons id rest =>
-      refine ⟨⟨h.queue, h.collected, h.waiters, ?_⟩, rfl⟩
-      simp only [List.map_append, List.map_cons, List.map_nil, h.inProg]
-      simp [eraseIP, h.collected, h.waiters]
-  · refine ⟨⟨?_, h.collected, h.waiters, h.inProg⟩, rfl⟩
-    simp [h.queue]
-
-theorem drain_sim (step nw : Nat) (n n' : Int) : ∀ (fuel : Nat) {a b : StepState}, SimSS a b →
-    SimSS (drain step nw n fuel a).1 (drain step nw n' fuel b).1 ∧
-      (drain step nw n fuel a).2 = (drain step nw n' fuel b).2
-  | 0, a, b, h => ⟨h, rfl⟩
-  | fuel + 1, a, b, h => by
-    unfold drain
-    rw [← h.queue]
-    cases hq : a.queue with
-    | nil => exact ⟨h, rfl⟩
-    | cons x q =>
-      simp only
-      rw [h.length]
-      split
-      · have hs : SimSS { a with queue := q } { b with queue := q } := ⟨rfl, h.collected, h.waiters, h.inProg⟩
-        have h1 := addOrEnqueue_sim x step nw n n' hs
-        have h2 := drain_sim step nw n n' fuel h1.1
-        exact ⟨h2.1, by rw [h1.2, h2.2]⟩
-      · exact ⟨h, rfl⟩
-
-/-! ### `_process_add_event_tick` -/
-
-theorem resolveLoop_sim (ev : Ev) (step nw : Nat) (n n' : Int) :
-    ∀ (rest done : List Waiter) {a b : StepState} (cmds : List Cmd) (hd : Bool), SimSS a b →
-      SimSS (resolveLoop ev step nw n done rest a cmds hd).1 (resolveLoop ev step nw n' done rest b cmds hd).1 ∧
-      (resolveLoop ev step nw n done rest a cmds hd).2 = (resolveLoop ev step nw n' done rest b cmds hd).2
-  | [], done, a, b, cmds, hd, h => by
-    simp only [resolveLoop]
-    exact ⟨⟨h.queue, h.collected, rfl, h.inProg⟩, trivial⟩
-  | w :: rest, done, a, b, cmds, hd, h => by
-    simp only [resolveLoop]
-    split
-    · have hs : SimSS { a with waiters := done ++ { w with resolved := some ev } :: rest }
-          { b with waiters := done ++ { w with resolved := some ev } :: rest } :=
-        ⟨h.queue, h.collected, rfl, h.inProg⟩
-      have h1 := addOrEnqueue_sim { ev := w.ev } step nw n n' hs
-      rw [h1.2]
-      exact resolveLoop_sim ev step nw n n' rest _ _ _ h1.1
-    · exact resolveLoop_sim ev step nw n n' rest _ _ _ h
-
-/-- agreement of two `AddAcc`s -/
-structure SimAdd (x y : AddAcc) : Prop where
-  st : SimSt x.st y.st
-  cmds : x.cmds = y.cmds
-  handled : x.handled = y.handled
-  woken : x.woken = y.woken
-
-theorem addEventWaiters_sim (cfg : Cfg) (ev : Ev) (target : Option Nat) (n n' : Int) :
-    ∀ (steps : List StepCfg) {x y : AddAcc}, SimAdd x y →
-      SimAdd (addEventWaiters cfg ev target n steps x) (addEventWaiters cfg ev target n' steps y)
-  | [], x, y, h => by simpa [addEventWaiters] using h
-  | c :: cs, x, y, h => by
-    simp only [addEventWaiters]
-    split
-    · exact addEventWaiters_sim cfg ev target n n' cs h
-    · have hw := h.st.workers c.name
-      have h1 := resolveLoop_sim ev c.name c.numWorkers n n' (x.st.workers c.name).waiters [] [] false hw
-      rw [← hw.waiters]
-      apply addEventWaiters_sim cfg ev target n n' cs
-      rw [← h1.2]
-      split
-      · exact ⟨h.st.set c.name h1.1, by rw [h.cmds], rfl, by rw [h.woken]⟩
-      · exact h
-
-theorem addEventRoute_sim (att : Attempt) (target : Option Nat) (n n' : Int) :
-    ∀ (steps : List StepCfg) {x y : AddAcc}, SimAdd x y →
-      SimAdd (addEventRoute att target n steps x) (addEventRoute att target n' steps y)
-  | [], x, y, h => by simpa [addEventRoute] using h
-  | c :: cs, x, y, h => by
-    simp only [addEventRoute]
-    rw [← h.woken]
-    split
-    · exact addEventRoute_sim att target n n' cs h
-    · split
-      · have h1 := addOrEnqueue_sim att c.name c.numWorkers n n' (h.st.workers c.name)
-        apply addEventRoute_sim att target n n' cs
-        exact ⟨h.st.set c.name h1.1, by rw [h.cmds, h1.2], rfl, rfl⟩
-      · exact addEventRoute_sim att target n n' cs h
-
-theorem stepQuiet_sim {a b : StepState} (h : SimSS a b) : stepQuiet a = stepQuiet b := by
-  simp [stepQuiet, h.queue, h.isEmpty]
-
-theorem checkIdle_sim (cfg : Cfg) {a b : State} (h : SimSt a b) : checkIdle cfg a = checkIdle cfg b := by
-  unfold checkIdle
-  rw [h.running]
-  congr 1
-  apply List.all_congr rfl
-  intro s
-  exact stepQuiet_sim (h.workers s)
-
-theorem addEventStart_sim (att : Attempt) {a b : State} (h : SimSt a b) :
-    SimSt (addEventStart att a) (addEventStart att b) := by
-  unfold addEventStart
-  split
-  · exact ⟨rfl, h.workers⟩
-  · exact h
-
-theorem processAddEvent_sim (cfg : Cfg) (att : Attempt) (target : Option Nat) {a b : State} (n n' : Int)
-    (h : SimSt a b) :
-    SimSt (processAddEvent cfg att target a n).1 (processAddEvent cfg att target b n').1 ∧
-      (processAddEvent cfg att target a n).2 = (processAddEvent cfg att target b n').2 := by
-  unfold processAddEvent
-  have h0 : SimAdd { st := addEventStart att a } { st := addEventStart att b } :=
-    ⟨addEventStart_sim att h, rfl, rfl, rfl⟩
-  have h1 := addEventWaiters_sim cfg att.ev target n n' cfg.steps h0
-  have h2 := addEventRoute_sim att target n n' cfg.steps h1
-  refine ⟨h2.st, ?_⟩
-  simp only
-  rw [h2.cmds]
-  congr 1
-  unfold unhandledCmds
-  rw [h2.handled, checkIdle_sim cfg h2.st]
-
-/-! ### `_process_step_result_tick` -/
-
-structure SimAcc (x y : ResAcc) : Prop where
-  st : SimSt x.st y.st
-  cmds : keyCmds x.cmds = keyCmds y.cmds
-  out : x.out = y.out
-  still : x.stillInProgress = y.stillInProgress
-  exec : eraseIP x.exec = eraseIP y.exec
-
-theorem SimAcc.rc {x y : ResAcc} (h : SimAcc x y) : x.exec.rc = y.exec.rc := by
-  have := congrArg InProg.rc h.exec
-  exact this
-theorem SimAcc.attempts {x y : ResAcc} (h : SimAcc x y) : x.exec.attempts = y.exec.attempts :=
-  by
-  have := congrArg InProg.attempts h.exec
-  exact this
-theorem SimAcc.snapEvents {x y : ResAcc} (h : SimAcc x y) : x.exec.snapEvents = y.exec.snapEvents :=
-  by
-  have := congrArg InProg.snapEvents h.exec
-  exact this
-theorem SimAcc.wid {x y : ResAcc} (h : SimAcc x y) : x.exec.wid = y.exec.wid := by
-  have := congrArg InProg.wid h.exec
-  exact this
-theorem SimAcc.ev {x y : ResAcc} (h : SimAcc x y) : x.exec.ev = y.exec.ev := by
-  have := congrArg InProg.ev h.exec
-  exact this
-
-theorem retryDecision_timeFree (cfg : Cfg) {pol : Policy} (hpol : TimeFree pol) (step : Nat) (e e' : Int)
-    (f x : Nat) : retryDecision cfg pol step e f x = retryDecision cfg pol step e' f x := by
-  unfold retryDecision
-  split
-  · split
-    · exact hpol _ _ _ _ _
-    · rfl
-  · rfl
-
-theorem clearAll_sim {a b : State} (h : SimSt a b) :
-    SimSt (clearAll { a with isRunning := false }) (clearAll { b with isRunning := false }) :=
-  ⟨rfl, fun n => ⟨(h.workers n).queue, rfl, rfl, (h.workers n).inProg⟩⟩
-
-theorem keyCmds_snoc_plain (l : List Cmd) (c : Cmd) (h : (c.isExit || c == Cmd.crash) = false) :
-    keyCmds (l ++ [c]) = keyCmds l := by
-  simp [keyCmds, h]
-
-theorem applyRes_sim (cfg : Cfg) {pol : Policy} (hpol : TimeFree pol) (step : Nat) (tickEv : Ev) (dc : Bool)
-    {x y : ResAcc} (h : SimAcc x y) (r : Res) :
-    SimAcc (applyRes cfg pol step tickEv dc x r) (applyRes cfg pol step tickEv dc y r) := by
-  cases r with
-  | result r =>
-    cases r with
-    | none => exact ⟨h.st, h.cmds, rfl, h.still, h.exec⟩
-    | some ev =>
-      by_cases hk : ev.kind = .stop
-      · simp only [applyRes, hk, if_true]
-        exact ⟨clearAll_sim h.st, by simp only [keyCmds_append, h.cmds], rfl, h.still, h.exec⟩
-      · simp only [applyRes, hk, if_false]
-        refine ⟨h.st, ?_, rfl, h.still, h.exec⟩
-        simp only [keyCmds_append, h.cmds, h.rc]
-  | failed exc failedAt =>
-    simp only [applyRes]
-    rw [retryDecision_timeFree cfg hpol step (failedAt - y.exec.firstAt) (failedAt - x.exec.firstAt), ← h.attempts]
-    generalize retryDecision cfg pol step (failedAt - x.exec.firstAt) (x.exec.attempts + 1) exc = dec
-    cases dec with
-    | retry d =>
-      simp only
-      exact ⟨h.st, by (simp only [keyCmds_append, h.cmds]; simp [keyCmds, Cmd.isExit]), h.out, h.still, h.exec⟩
-    | raise =>
-      simp only
-      exact ⟨h.st, by simp [keyCmds_append, h.cmds], h.out, h.still, h.exec⟩
-    | stop =>
-      simp only
-      cases handlerOwner cfg step with
-      | none =>
-        simp only
-        exact ⟨⟨rfl, h.st.workers⟩, by (simp only [keyCmds_append, h.cmds]; simp [keyCmds, Cmd.isExit]), h.out, h.still, h.exec⟩
-      | some hm =>
-        obtain ⟨hh, maxRec⟩ := hm
-        simp only
-        rw [← h.rc]
-        split
-        · exact ⟨h.st, by (simp only [keyCmds_append, h.cmds]; simp [keyCmds, Cmd.isExit]), h.out, h.still, h.exec⟩
-        · exact ⟨⟨rfl, h.st.workers⟩, by (simp only [keyCmds_append, h.cmds]; simp [keyCmds, Cmd.isExit]), h.out, h.still, h.exec⟩
-  | addCollected buf ev =>
-    simp only [applyRes]
-    have hw := h.st.workers step
-    rw [← hw.collected, ← h.snapEvents, ← h.still]
-    split
-    · exact h
-    split
-    · refine ⟨h.st.set step ⟨hw.queue, rfl, hw.waiters, hw.inProg⟩, ?_, h.out, rfl, ?_⟩
-      · simp only [keyCmds_append, h.cmds, h.wid]
-      · have := h.exec
-        simp only [eraseIP] at this ⊢
-        cases hx : x.exec; cases hy : y.exec
-        rw [hx, hy] at this
-        simp_all
-    · exact ⟨h.st.set step ⟨hw.queue, rfl, hw.waiters, hw.inProg⟩, h.cmds, h.out, rfl, h.exec⟩
-  | deleteCollected buf =>
-    simp only [applyRes]
-    split
-    · have hw := h.st.workers step
-      exact ⟨h.st.set step ⟨hw.queue, by rw [hw.collected], hw.waiters, hw.inProg⟩, h.cmds, h.out, h.still, h.exec⟩
-    · exact h
-  | addWaiter wid waiterEv req timeout ty =>
-    simp only [applyRes]
-    have hw := h.st.workers step
-    rw [← hw.waiters, ← h.ev]
-    split
-    · exact ⟨h.st.set step ⟨hw.queue, hw.collected, rfl, hw.inProg⟩, h.cmds, h.out, h.still, h.exec⟩
-    · refine ⟨h.st.set step ⟨hw.queue, hw.collected, rfl, hw.inProg⟩, ?_, h.out, h.still, h.exec⟩
-      simp only [keyCmds_append, h.cmds]
-  | deleteWaiter wid =>
-    simp only [applyRes]
-    split
-    · have hw := h.st.workers step
-      exact ⟨h.st.set step ⟨hw.queue, hw.collected, by rw [hw.waiters], hw.inProg⟩, h.cmds, h.out, h.still, h.exec⟩
-    · exact h
-
-theorem foldl_applyRes_sim (cfg : Cfg) {pol : Policy} (hpol : TimeFree pol) (step : Nat) (tickEv : Ev) (dc : Bool) :
-    ∀ (res : List Res) {x y : ResAcc}, SimAcc x y →
-      SimAcc (res.foldl (applyRes cfg pol step tickEv dc) x) (res.foldl (applyRes cfg pol step tickEv dc) y)
-  | [], x, y, h => by simpa using h
-  | r :: rs, x, y, h => by
-    simp only [List.foldl_cons]
-    exact foldl_applyRes_sim cfg hpol step tickEv dc rs (applyRes_sim cfg hpol step tickEv dc h r)
-
-theorem eraseIP_wid (ip : InProg) : (eraseIP ip).wid = ip.wid := rfl
-
-theorem map_erase_modifyFirst (k : Nat) (e : InProg) : ∀ (l : List InProg),
-    (modifyFirst (fun w => w.wid == k) (fun _ => e) l).map eraseIP =
-      modifyFirst (fun w => w.wid == k) (fun _ => eraseIP e) (l.map eraseIP)
-  | [] => rfl
-  | w :: ws => by
-    simp only [modifyFirst, List.map_cons, eraseIP_wid]
-    by_cases hk : (w.wid == k) = true
-    · simp only [hk, if_true, List.map_cons]
-    · simp only [hk, if_false, List.map_cons, map_erase_modifyFirst k e ws, Bool.false_eq_true]
-
-theorem map_erase_eraseP (k : Nat) : ∀ (l : List InProg),
-    (l.eraseP (fun w => w.wid == k)).map eraseIP = (l.map eraseIP).eraseP (fun w => w.wid == k)
-  | [] => rfl
-  | w :: ws => by
-    simp only [List.eraseP_cons, List.map_cons, eraseIP_wid]
-    cases hk : (w.wid == k)
-    · simp only [cond_false, List.map_cons, map_erase_eraseP k ws]
-    · simp only [cond_true]
-
-theorem find_erase (k : Nat) : ∀ (l : List InProg),
-    (l.find? (fun w => w.wid == k)).map eraseIP = (l.map eraseIP).find? (fun w => w.wid == k)
-  | [] => rfl
-  | w :: ws => by
-    simp only [List.find?_cons, List.map_cons, eraseIP_wid]
-    split
-    · rfl
-    · exact find_erase k ws
-
-theorem settle_sim {x y : ResAcc} (h : SimAcc x y) (step worker : Nat) (tickEv : Ev) :
-    SimSS (settle x step worker tickEv).1 (settle y step worker tickEv).1 ∧
-      keyCmds (settle x step worker tickEv).2 = keyCmds (settle y step worker tickEv).2 := by
-  unfold settle
-  have hw := h.st.workers step
-  simp only
-  rw [← h.still]
-  split
-  · refine ⟨⟨hw.queue, hw.collected, hw.waiters, ?_⟩, h.cmds⟩
-    simp only [map_erase_modifyFirst, hw.inProg, h.exec]
-  · refine ⟨⟨hw.queue, hw.collected, hw.waiters, ?_⟩, ?_⟩
-    · simp only [map_erase_eraseP, hw.inProg]
-    · rw [← h.out]
-      have e : ∀ (l : List Cmd) (c : Cmd), (c.isExit || c == Cmd.crash) = false → keyCmds (c :: l) = keyCmds l := by
-        intro l c hc; simp [keyCmds, hc]
-      rw [e _ _ (by simp [Cmd.isExit]), e _ _ (by simp [Cmd.isExit])]
-      exact h.cmds
-
-theorem processStepResult_sim (cfg : Cfg) {pol : Policy} (hpol : TimeFree pol) (step worker : Nat) (tickEv : Ev)
-    (res : List Res) {a b : State} (n n' : Int) (h : SimSt a b) :
-    SimSt (processStepResult cfg pol step worker tickEv res a n).1
-        (processStepResult cfg pol step worker tickEv res b n').1 ∧
-      keyCmds (processStepResult cfg pol step worker tickEv res a n).2 =
-        keyCmds (processStepResult cfg pol step worker tickEv res b n').2 := by
-  unfold processStepResult
-  split
-  · exact ⟨h, rfl⟩
-  · have hw := h.workers step
-    have hf := find_erase worker (a.workers step).inProg
-    rw [hw.inProg, ← find_erase worker (b.workers step).inProg] at hf
-    cases ha : (a.workers step).inProg.find? (fun w => w.wid == worker) with
-    | none =>
-      rw [ha] at hf
-      cases hb : (b.workers step).inProg.find? (fun w => w.wid == worker) with
-      | none => exact ⟨h, rfl⟩
-      | some eb => rw [hb] at hf; simp at hf
-    | some ea =>
-      rw [ha] at hf
-      cases hb : (b.workers step).inProg.find? (fun w => w.wid == worker) with
-      | none => rw [hb] at hf; simp at hf
-      | some eb =>
-        rw [hb] at hf
-        have he : eraseIP ea = eraseIP eb := by simpa using hf
-        simp only
-        have h0 : SimAcc { st := a, exec := ea } { st := b, exec := eb } := ⟨h, rfl, rfl, rfl, he⟩
-        have hacc := foldl_applyRes_sim cfg hpol step tickEv (res.any isResult) res h0
-        generalize res.foldl (applyRes cfg pol step tickEv (res.any isResult)) { st := a, exec := ea } = xa at hacc
-        generalize res.foldl (applyRes cfg pol step tickEv (res.any isResult)) { st := b, exec := eb } = xb at hacc
-        have hs := settle_sim hacc step worker tickEv
-        rw [any_isExit_key xa.cmds, any_isExit_key xb.cmds, hacc.cmds]
-        split
-        · exact ⟨hacc.st.set step hs.1, hs.2⟩
-        · have hq : (settle xa step worker tickEv).1.queue.length = (settle xb step worker tickEv).1.queue.length := by
-            rw [hs.1.queue]
-          rw [hq]
-          have hd := drain_sim step (cfg.nw step) n n' (settle xb step worker tickEv).1.queue.length hs.1
-          exact ⟨hacc.st.set step hd.1, by rw [keyCmds_append, keyCmds_append, hs.2, hd.2]⟩
-
-theorem processWaiterTimeout_sim (cfg : Cfg) (step waiter : Nat) {a b : State} (n n' : Int) (h : SimSt a b) :
-    SimSt (processWaiterTimeout cfg step waiter a n).1 (processWaiterTimeout cfg step waiter b n').1 ∧
-      (processWaiterTimeout cfg step waiter a n).2 = (processWaiterTimeout cfg step waiter b n').2 := by
-  unfold processWaiterTimeout
-  split
-  · exact ⟨h, rfl⟩
-  · have hw := h.workers step
-    simp only
-    rw [← hw.waiters]
-    cases (a.workers step).waiters.find? (fun w => w.wid == waiter) with
-    | none => exact ⟨h, rfl⟩
-    | some w =>
-      simp only
-      split
-      · exact ⟨h, rfl⟩
-      · have hs : SimSS
-            { a.workers step with waiters := modifyFirst (fun x => x.wid == waiter) (fun x => { x with timedOut := true }) (a.workers step).waiters }
-            { b.workers step with waiters := modifyFirst (fun x => x.wid == waiter) (fun x => { x with timedOut := true }) (a.workers step).waiters } :=
-          ⟨hw.queue, hw.collected, rfl, hw.inProg⟩
-        have h1 := addOrEnqueue_sim { ev := w.ev } step (cfg.nw step) n n' hs
-        exact ⟨h.set step h1.1, h1.2⟩
-
-/-- **time erasure of `_reduce_tick`** -/
-theorem reduce_sim (cfg : Cfg) {pol : Policy} (hpol : TimeFree pol) (t : Tick) {a b : State} (n n' : Int)
+/-- **time erasure of `_reduce_tick`**, on the commands replay looks at -/
+theorem reduce_simKey (cfg : Cfg) {pol : Policy} (hpol : TimeFree pol) (t : Tick) {a b : State} (n n' : Int)
     (h : SimSt a b) :
     SimSt (reduce cfg pol t a n).1 (reduce cfg pol t b n').1 ∧
       keyCmds (reduce cfg pol t a n).2 = keyCmds (reduce cfg pol t b n').2 := by
-  have withIdle : ∀ (ra rb : State × List Cmd), SimSt ra.1 rb.1 → keyCmds ra.2 = keyCmds rb.2 →
-      SimSt (if checkIdle cfg ra.1 then (ra.1, ra.2 ++ [Cmd.scheduleIdleCheck]) else ra).1
-          (if checkIdle cfg rb.1 then (rb.1, rb.2 ++ [Cmd.scheduleIdleCheck]) else rb).1 ∧
-        keyCmds (if checkIdle cfg ra.1 then (ra.1, ra.2 ++ [Cmd.scheduleIdleCheck]) else ra).2 =
-          keyCmds (if checkIdle cfg rb.1 then (rb.1, rb.2 ++ [Cmd.scheduleIdleCheck]) else rb).2 := by
-    intro ra rb hs hc
-    rw [checkIdle_sim cfg hs]
-    split
-    · exact ⟨hs, by rw [keyCmds_append, keyCmds_append, hc]⟩
-    · exact ⟨hs, hc⟩
-  unfold reduce
-  cases t with
-  | stepResult step worker ev res =>
-    have := processStepResult_sim cfg hpol step worker ev res n n' h
-    exact withIdle _ _ this.1 this.2
-  | addEvent att target =>
-    have := processAddEvent_sim cfg att target n n' h
-    exact withIdle _ _ this.1 (by rw [this.2])
-  | cancelRun => exact withIdle (a, _) (b, _) h rfl
-  | idleRelease => exact ⟨h, rfl⟩
-  | publish ev => exact withIdle (a, _) (b, _) h rfl
-  | timeout t =>
-    refine withIdle ({ a with isRunning := false }, _) ({ b with isRunning := false }, _) ⟨rfl, h.workers⟩ ?_
-    simp [keyCmds, Cmd.isExit]
-  | waiterTimeout step waiter =>
-    have := processWaiterTimeout_sim cfg step waiter n n' h
-    exact withIdle _ _ this.1 (by rw [this.2])
-  | idleCheck =>
-    simp only
-    rw [checkIdle_sim cfg h]
-    split
-    · exact ⟨h, rfl⟩
-    · exact ⟨h, rfl⟩
+  obtain ⟨h1, c1⟩ := reduce_sim cfg hpol t n n' h
+  exact ⟨h1, by rw [← keyCmds_cE, c1, keyCmds_cE]⟩
 
 end Engine
